@@ -28,7 +28,11 @@ def main():
     os.makedirs(cfg["logdir"], exist_ok=True)
     logf = open(os.path.join(cfg["logdir"], f"seg{cfg['seg']}.jsonl"), "a")
 
+    import time
+    T0 = time.monotonic()
+
     def log(**ev):
+        ev["wall"] = time.monotonic() - T0     # monotonic seconds since this segment's process started its work (upper bound for any time accounted in it)
         logf.write(jdump(ev) + "\n")
         logf.flush()
         os.fsync(logf.fileno())
@@ -58,7 +62,7 @@ def main():
         os.replace(tmp, seq_file)
         return n
 
-    def dump(data, filename, module, save_existing=False):
+    def before_write(data):
         seq = next_seq()
         data._verif_ckpt_seq = seq
         d, arrays = digest(data)
@@ -68,12 +72,34 @@ def main():
             f.flush()
             os.fsync(f.fileno())
         os.replace(tmp, os.path.join(cfg["logdir"], f"digest-{seq}.json"))
-        r = orig_dump(data, filename, module, save_existing=save_existing)
+        return seq
+
+    def after_write(data, seq):
         mid = (not ins) and getattr(data, "live_points", None) is not None and len(data.nested_samples) != len(data.insertion_indices)
         log(ev="ckpt", seq=seq, it=int(data.iteration), mid_iteration=bool(mid), pts=int(model.b_points), counter=int(data.model.likelihood_evaluations),
             sampling_time=data.sampling_time.total_seconds(), training_time=data.training_time.total_seconds(),
             likelihood_evaluation_time=data.model.likelihood_evaluation_time.total_seconds())
+
+    def dump(data, filename, module, save_existing=False):
+        seq = before_write(data)
+        r = orig_dump(data, filename, module, save_existing=save_existing)
+        after_write(data, seq)
         return r
+
+    # ---- the documented alternative to the resume file: a user checkpoint_callback that stores the pickled sampler itself, handed back through resume_data
+    cb_file = os.path.join(cfg["logdir"], "callback_state.pkl")
+
+    def checkpoint_callback(state):
+        import pickle
+
+        seq = before_write(state)
+        blob = pickle.dumps(state)
+        with open(cb_file + ".tmp", "wb") as f:
+            f.write(blob)
+            f.flush()
+            os.fsync(f.fileno())
+        os.replace(cb_file + ".tmp", cb_file)
+        after_write(state, seq)
 
     sbase.safe_file_dump = dump
 
@@ -133,7 +159,15 @@ def main():
     mon.arm()
     stop_after = cfg.get("stop_after_resume_iterations")
     try:
-        fs = FlowSampler(model, output=cfg["outdir"], resume=True, importance_nested_sampler=ins, signal_handling=False, **kw)
+        extra = {}
+        if cfg.get("callback"):
+            extra["checkpoint_callback"] = checkpoint_callback
+            if os.path.exists(cb_file):
+                import pickle
+
+                with open(cb_file, "rb") as f:
+                    extra["resume_data"] = pickle.load(f)
+        fs = FlowSampler(model, output=cfg["outdir"], resume=True, importance_nested_sampler=ins, signal_handling=False, **extra, **kw)
         ns = fs.ns
         if ins:
             mon.min_samples = ns.min_samples
